@@ -5,20 +5,22 @@ use crate::solo::world::Act;
 
 pub fn run(ctx: &Ctx) -> Outcome {
     let mut out = Outcome::default();
-    let d = ctx.tier.pick(2, 3);
+    let d = ctx.tier.pick(3, 4);
     for drv in hostile_all(ctx.tier, d) {
         run_and_report(ctx, &drv, &mut out);
     }
-    // longer hostile sequences over a thinned alphabet (every 4th packet of the hostile alphabet, all
-    // benign actions): damage that needs several absurd packets in a row to build up
+    // longer hostile sequences over thinned alphabets (every 4th packet of the hostile alphabet - each of
+    // the four residues in turn - plus all benign actions): damage that needs several absurd packets in a
+    // row to build up
     let d2 = ctx.tier.pick(5, 7);
-    for mut drv in hostile_all(ctx.tier, d2) {
-        let n = drv.alphabet.len();
-        let keep: Vec<Act> = drv.alphabet.iter().enumerate().filter(|(i, a)| !matches!(a, Act::Deliver(_) | Act::Deliver2(..)) || i % 4 == 0).map(|(_, a)| a.clone()).collect();
-        drv.name = format!("{}-thin", drv.name);
-        drv.alphabet = keep;
-        let _ = n;
-        run_and_report(ctx, &drv, &mut out);
+    let residues: Vec<usize> = ctx.tier.pick(vec![0, 2], vec![0, 1, 2, 3]);
+    for r in residues {
+        for mut drv in hostile_all(ctx.tier, d2) {
+            let keep: Vec<Act> = drv.alphabet.iter().enumerate().filter(|(i, a)| !matches!(a, Act::Deliver(_) | Act::Deliver2(..)) || i % 4 == r).map(|(_, a)| a.clone()).collect();
+            drv.name = format!("{}-thin{r}", drv.name);
+            drv.alphabet = keep;
+            run_and_report(ctx, &drv, &mut out);
+        }
     }
     out.merge(crate::props::sockets::hostile_socket(ctx));
     out.rule = "C10: from each of 8 connection states ALL sequences of <= depth packets of a hostile alphabet (absurd ack/seq/window values, SACKs of length 0..36, oversize payloads, types illegal in the state) mixed with benign application actions; no panic (catch_unwind), no Bug* error, buffering within the configured bounds".into();
